@@ -351,6 +351,26 @@ func (e *ecEnv) checkKey(sk signature.Signer, label string, seed []byte) (ecKey,
 			}
 		}
 	}
+	// other byte strings that start like a point encoding: the key followed by a signature-sized tail, and the two
+	// coordinates written out in full (the uncompressed form of a point where PublicKey.Bytes is the compressed one).
+	// Whatever is accepted is the encoding of the key: Bytes() gives back exactly the bytes reported as consumed.
+	{
+		h := len(pb)
+		full := append(x.FillBytes(make([]byte, (g.P.BitLen()+7)/8)), y.FillBytes(make([]byte, (g.P.BitLen()+7)/8))...)
+		alts := [][]byte{append(append([]byte(nil), pb...), bytes.Repeat([]byte{0x5c}, 2*h)...), full, append(append([]byte(nil), full...), bytes.Repeat([]byte{0x11}, h)...)}
+		for ai, in := range alts {
+			p2 := e.d.NewPub()
+			var n int
+			var err error
+			if c.Guard(fmt.Sprintf("%s/PublicKey.SetBytes/panic/alternative-input%d", N, ai), func() string { return hx(in) }, func() { n, err = p2.SetBytes(in) }) {
+				continue
+			}
+			c.Check("PublicKey.SetBytes", fmt.Sprintf("%s/PublicKey.SetBytes/accepted-bytes-are-not-the-encoding/alternative-input%d", N, ai),
+				err != nil || (n <= len(in) && bytes.Equal(p2.Bytes(), in[:n])), func() string {
+					return fmt.Sprintf("%s: SetBytes(%s) returned n=%d err=nil, but the decoded key encodes as %s", label, hx(in), n, hx(p2.Bytes()))
+				})
+		}
+	}
 	for _, extra := range []int{0, 1, 40} {
 		in := append(append([]byte(nil), pb...), bytes.Repeat([]byte{0xA5}, extra)...)
 		p2 := e.d.NewPub()
